@@ -10,7 +10,7 @@ META = {
     'technique': 'static dominator / must-pass-through and provenance rules on the MIR of the five hook coroutines',
     'text': 'Decides on every control-flow path of the hook wrappers: the before-hook completes before serve starts and serve is reachable only on the Continue edge of the hook\'s result, '
             'whose residual is what is returned otherwise; cons-lists run first then rest with the same short-circuit; the after-hook is awaited exactly once on every path from serve '
-            'completion to return, on &mut of the very result local that is returned; the combined hook skips `after` on Break and shows it the context local its `before` mutated. '
+            'completion to return, on &mut of the very result local that is returned, and that local is neither assigned nor lent out mutably afterwards; the combined hook skips `after` on Break and shows it the context local its `before` mutated. '
             'Chains of any length and nesting are compositions of these five bodies (generic over the wrapped Serve), so the per-body shape covers all chain lengths.',
     'note': 'Trusted: rustc MIR construction and async desugaring. User-supplied hooks themselves are arbitrary code and out of scope.',
 }
